@@ -78,6 +78,8 @@ macro_rules! coded_actor {
                     let (new, cmds) = self.0.react(r, state, usize::from(id), Some(usize::from(src)));
                     if let Some(new) = new {
                         *state.to_mut() = new;
+                    } else if r.touch {
+                        let _ = state.to_mut();
                     }
                     for c in cmds {
                         emit_coded(c, o, $enc);
@@ -89,6 +91,8 @@ macro_rules! coded_actor {
                     let (new, cmds) = self.0.react(r, state, usize::from(id), None);
                     if let Some(new) = new {
                         *state.to_mut() = new;
+                    } else if r.touch {
+                        let _ = state.to_mut();
                     }
                     for c in cmds {
                         emit_coded(c, o, $enc);
@@ -100,6 +104,8 @@ macro_rules! coded_actor {
                     let (new, cmds) = self.0.react(r, state, usize::from(id), None);
                     if let Some(new) = new {
                         *state.to_mut() = new;
+                    } else if r.touch {
+                        let _ = state.to_mut();
                     }
                     for c in cmds {
                         emit_coded(c, o, $enc);
@@ -352,7 +358,7 @@ fn retarget<M: Eq + Hash>(sys: &System, enc: fn(u8) -> M) -> Network<M> {
 }
 
 fn adapters_case(case: &mut Case) {
-    let knobs = SysKnobs { max_actors: 3, ..SysKnobs::default() };
+    let knobs = SysKnobs { max_actors: 3, touch: true, ..SysKnobs::default() };
     let sys = gen_system(&mut case.rng, &knobs);
     case.sample(|| sys.to_json());
     let mut kinds: BTreeSet<&'static str> = BTreeSet::new();
